@@ -16,7 +16,8 @@ NOTES = {  # file:line -> (class, note) for survivors read by hand
     "join.go:235": ("equivalent", "continue at the end of the loop body"),
     "join.go:219": ("equivalent", "a leading nil row is skipped by exec's type switch: same API result"),
     "join.go:376": ("equivalent", "break at the end of a case"),
-    "join.go:563": ("equivalent", "duplicate key columns do not change the catalog key equivalence"),
+    "join.go:563": ("equivalent", "removeDuplicates is dead code (no caller)"),
+    "join.go:562": ("equivalent", "removeDuplicates is dead code (no caller)"),
     "plsql.go:198": ("equivalent", "-0 == 0: an OFFSET of 0 and no OFFSET are the same window"),
     "plsql.go:327": ("equivalent", "capacity hint of make"),
     "plsql.go:602": ("equivalent", "capacity hint of make"),
